@@ -615,6 +615,15 @@ def differential(ctx, reqs, channel, shrink=True, max_report=5, oracle=None, kee
     for r, a, b in bad[:max_report]:
         small = shrink_request(ctx, r, differs, keep=keep) if shrink else r
         a2, b2 = run_impl(ctx, [small])[0], run_driver(ctx, [small])[0]
+        if same(a2, b2) and not shrink:
+            # they agree when the request is issued alone: the implementation's answer depends on earlier requests to the same process
+            j = reqs.index(r)
+            hist = reqs[max(0, j - 8):j]
+            ctx.issue(f"correspondence:{channel}:history:{r[:110]}", "implementation and Lean model disagree after earlier requests to the same "
+                      "process (they agree when the request is issued alone): state survives between calls",
+                      witness={"request": r, "history": [h[:4000] for h in hist], "implementation": a, "model": b, "alone": a2},
+                      found_input=True, kind="correspondence")
+            continue
         ctx.issue(f"correspondence:{channel}:{small[:120]}", "implementation and Lean model disagree",
                   witness={"request": small, "implementation": a2, "model": b2, "original_request": r},
                   found_input=True, kind="correspondence")
@@ -631,8 +640,27 @@ def differential(ctx, reqs, channel, shrink=True, max_report=5, oracle=None, kee
             if shrink:
                 small = shrink_request(ctx, r, lambda q: bool(oracle(q, run_impl(ctx, [q])[0])), keep=keep)
             a2 = run_impl(ctx, [small])[0]
-            ctx.issue(f"oracle:{channel}:{small[:120]}", "the property fails on the implementation: " + oracle(small, a2),
-                      witness={"request": small, "implementation": a2}, found_input=True, kind="oracle")
+            msg2 = oracle(small, a2)
+            if msg2:
+                ctx.issue(f"oracle:{channel}:{small[:120]}", "the property fails on the implementation: " + msg2,
+                          witness={"request": small, "implementation": a2}, found_input=True, kind="oracle")
+                continue
+            # the failure does not show when the request is issued alone: it depends on the requests answered before it by the same
+            # process (state that survives a call). Find a short history that reproduces it.
+            j = reqs.index(r)
+            hist = None
+            for k in (1, 2, 4, 8, 16, 64, j):
+                k = min(k, j)
+                answers = run_impl(ctx, reqs[j - k:j + 1])
+                if answers and oracle(r, answers[-1]):
+                    hist = (reqs[j - k:j], answers[-1])
+                    break
+            if hist is None:
+                hist = (reqs[:j], a)
+            ctx.issue(f"oracle:{channel}:history:{r[:110]}", "the property fails on the implementation after earlier requests to the same process "
+                      "(it holds when the request is issued alone): " + msg,
+                      witness={"request": r, "history": [h[:4000] for h in hist[0]][-64:], "implementation": hist[1], "alone": a2},
+                      found_input=True, kind="oracle")
         ctx.oblige(f"oracle:{channel} ({len(reqs)} requests)", not obad)
     return impl, model
 
